@@ -107,42 +107,132 @@ def in_handler_for(node, fn, names):
     return False
 
 
+def _keyerror_guard_ok(call, fn):
+    """the call is not inside a try that swallows KeyError: either no KeyError/broad handler encloses it, or the enclosing KeyError handler always raises"""
+    child = call
+    p = getattr(call, "_parent", None)
+    while p is not None and p is not fn:
+        if isinstance(p, ast.Try) and any(child is s_ for s_ in p.body):
+            hk = [h for h in p.handlers if h.type is None or ast.unparse(h.type) in ("KeyError", "LookupError", "Exception", "BaseException")]
+            if hk:
+                h = hk[0]
+                return bool(h.body) and not any(isinstance(x, (ast.Return, ast.Pass, ast.Continue, ast.Break)) for s_ in h.body for x in ast.walk(s_)) and handler_always_raises(h.body)
+        child = p
+        p = getattr(p, "_parent", None)
+    return True
+
+
+def ensures_key(repo, q, D, pidx, depth=0):
+    """does function q return normally only after D[<its parameter number pidx>] succeeded?  Either it performs that lookup itself (a KeyError then leaves it), or
+    it hands the parameter to a repo function that does, in a place where a KeyError is not swallowed."""
+    if depth > 3 or q not in repo.functions:
+        return False
+    m, fn = repo.functions[q]
+    params = [a.arg for a in fn.args.args]
+    if pidx >= len(params):
+        return False
+    p0 = params[pidx]
+    if any(isinstance(x, ast.Name) and x.id == p0 and isinstance(x.ctx, ast.Store) for x in ast.walk(fn)):
+        return False
+    for x in ast.walk(fn):
+        if isinstance(x, ast.Subscript) and isinstance(x.value, ast.Name) and x.value.id == D and isinstance(x.slice, ast.Name) and x.slice.id == p0 and _keyerror_guard_ok(x, fn):
+            return True
+    for c in ast.walk(fn):
+        if isinstance(c, ast.Call) and isinstance(c.func, ast.Name):
+            r = repo.resolve_name(m, c.func.id)
+            if r[0] != "function":
+                continue
+            for i, a in enumerate(c.args):
+                if isinstance(a, ast.Name) and a.id == p0 and _keyerror_guard_ok(c, fn) and ensures_key(repo, r[1], D, i, depth + 1):
+                    return True
+    return False
+
+
 def validated_lookup(repo, m, fn, node):
-    """D[k] is total when an earlier statement of the same function called, under `except KeyError: ... raise`, a repo function
-    whose body performs D[<its parameter>] with the argument k, and k is not rebound in between."""
+    """D[k] is total when an earlier statement of the same function called a repo function that returns normally only after D[<the argument k>] succeeded
+    (directly or through helpers; a KeyError on the way must not be swallowed), and k is not rebound in between."""
     if not (isinstance(node.value, ast.Name) and isinstance(node.slice, ast.Name)):
         return False
     D, k = node.value.id, node.slice.id
     for c in ast.walk(fn):
         if not (isinstance(c, ast.Call) and isinstance(c.func, ast.Name) and c.lineno < node.lineno):
             continue
-        if not (len(c.args) == 1 and isinstance(c.args[0], ast.Name) and c.args[0].id == k):
-            continue
         r = repo.resolve_name(m, c.func.id)
         if r[0] != "function":
             continue
-        cm, cf = repo.functions[r[1]]
-        if not cf.args.args:
-            continue
-        p0 = cf.args.args[0].arg
-        does = any(isinstance(x, ast.Subscript) and isinstance(x.value, ast.Name) and x.value.id == D and isinstance(x.slice, ast.Name) and x.slice.id == p0
-                   for x in ast.walk(cf))
-        if not does or not in_handler_for(c, fn, ("KeyError",)):
-            continue
-        # the KeyError handler must always raise, and k must not be rebound between the call and the lookup
-        rebound = any(isinstance(x, ast.Name) and x.id == k and isinstance(x.ctx, ast.Store) and c.lineno < x.lineno < node.lineno for x in ast.walk(fn))
-        if rebound:
-            continue
-        t = getattr(c, "_parent", None)
-        while t is not None and not isinstance(t, ast.Try):
-            t = getattr(t, "_parent", None)
-        if t is None:
-            continue
-        hk = [h for h in t.handlers if h.type is not None and ast.unparse(h.type) == "KeyError"]
-        if hk and all(isinstance(s_, (ast.If, ast.Raise)) for s_ in hk[0].body) and isinstance(hk[0].body[-1], (ast.Raise, ast.If)) and \
-                not any(isinstance(x, (ast.Return, ast.Pass)) for s_ in hk[0].body for x in ast.walk(s_)) and handler_always_raises(hk[0].body):
-            return True
+        for i, a in enumerate(c.args):
+            if not (isinstance(a, ast.Name) and a.id == k):
+                continue
+            if not _keyerror_guard_ok(c, fn) or not ensures_key(repo, r[1], D, i):
+                continue
+            rebound = any(isinstance(x, ast.Name) and x.id == k and isinstance(x.ctx, ast.Store) and c.lineno < x.lineno < node.lineno for x in ast.walk(fn))
+            if not rebound:
+                return True
     return False
+
+
+_CONTAINED = {}
+
+
+def classify_sites(repo, m, fn, q, depth):
+    """[(what, ok, expected, derived, node, msg)] for every raising operation / explicit raise of fn (R1).  A call to a function of the same module that is not in
+    the TOTAL table is accepted when every site of *that* function is accepted by the same classification (a contained helper)."""
+    for n_ in ast.walk(fn):
+        for ch in ast.iter_child_nodes(n_):
+            if not hasattr(ch, "_parent"):
+                ch._parent = n_
+    out = []
+    for node in ast.walk(fn):
+        if enclosing_function(node) is not fn:
+            continue
+        if isinstance(node, ast.Raise):
+            ok = node.exc is not None and raises_importerror(node)
+            out.append(("raise:%s" % norm(node.exc)[:40] if node.exc else "raise:bare", ok, "raise ImportError(...)", norm(node)[:80], node, "an explicit raise in the loader is not ImportError"))
+            continue
+        if isinstance(node, ast.Call):
+            text = ast.unparse(node.func)
+            what = "call:%s" % text
+        elif isinstance(node, ast.Subscript) and isinstance(node.ctx, ast.Load) and not isinstance(node.slice, ast.Slice):
+            text = ast.unparse(node)
+            what = "lookup:%s" % text
+        else:
+            continue
+        prot = protection(node, fn)
+        if prot == "protected":
+            out.append((what, True, None, "inside the catch-all", node, None))
+            continue
+        if isinstance(node, ast.Call) and text in TOTAL:
+            if text == "magic_int2tuple" and not in_handler_for(node, fn, ("KeyError",)):
+                out.append((what, False, "under `except KeyError`", "unguarded", node,
+                            "magic_int2tuple raises KeyError for an unknown magic; outside the catch-all it must be under except KeyError"))
+            else:
+                out.append((what, True, None, "total: " + TOTAL[text], node, None))
+            continue
+        if isinstance(node, ast.Subscript) and validated_lookup(repo, m, fn, node):
+            out.append((what, True, None, "total: the same lookup already succeeded inside a dominating, KeyError-guarded call", node, None))
+            continue
+        if isinstance(node, ast.Call) and isinstance(node.func, ast.Attribute) and isinstance(node.func.value, ast.Constant):
+            out.append((what, True, None, "method of a literal", node, None))
+            continue
+        if isinstance(node, ast.Call) and isinstance(node.func, ast.Name) and depth < 3:
+            r = repo.resolve_name(m, node.func.id)
+            if r[0] == "function" and r[1] in repo.functions and r[1].rsplit(".", 1)[0] == q.rsplit(".", 1)[0]:
+                if r[1] not in _CONTAINED:
+                    _CONTAINED[r[1]] = None  # recursion guard
+                    hm, hf = repo.functions[r[1]]
+                    sub = classify_sites(repo, hm, hf, r[1], depth + 1)
+                    _CONTAINED[r[1]] = [x for x in sub if not x[1]]
+                if _CONTAINED[r[1]] == []:
+                    out.append((what, True, None, "contained helper: every raising operation of %s is itself contained and its raises are ImportError" % r[1], node, None))
+                    continue
+                if _CONTAINED[r[1]]:
+                    b0 = _CONTAINED[r[1]][0]
+                    out.append((what, False, "a helper whose own operations are contained", "%s: %s (%s)" % (r[1], b0[0], b0[3]), node,
+                                "%s is called outside the catch-all and can raise something other than ImportError: %s" % (text, b0[0])))
+                    continue
+        out.append((what, False, "inside the try/except Exception -> ImportError, or a listed total operation", "outside the catch-all", node,
+                    "%s can raise an exception other than ImportError for crafted file content (it runs outside the catch-all)" % text))
+    return out
 
 
 def handler_always_raises(body):
@@ -413,6 +503,26 @@ class LenVal(dict):
         raise KeyError(k)
 
 
+def once_assigned(fn):
+    """{name: value expression} for local names bound by exactly one plain assignment in fn (temporaries)"""
+    seen = {}
+    for x in ast.walk(fn):
+        if isinstance(x, ast.Name) and isinstance(x.ctx, ast.Store):
+            seen[x.id] = seen.get(x.id, 0) + 1
+    out = {}
+    for a in ast.walk(fn):
+        if isinstance(a, ast.Assign) and len(a.targets) == 1 and isinstance(a.targets[0], ast.Name) and seen.get(a.targets[0].id) == 1:
+            out[a.targets[0].id] = a.value
+    return out
+
+
+def through_temporaries(e, temps, depth=0):
+    """the expression with once-assigned temporaries replaced by what they were assigned (two levels)"""
+    if isinstance(e, ast.Name) and e.id in temps and depth < 3:
+        return through_temporaries(temps[e.id], temps, depth + 1)
+    return e
+
+
 def validated_by_unpack(fn, st):
     """idiom of decrypt25.load_code:   data = self.bufstr[self.bufpos : self.bufpos + N];  struct.unpack('<%dL' % M, data) with M = N / 4;
     self.bufpos += N.   struct rejects a negative repeat count and a buffer of the wrong size, so reaching the store implies 0 <= N <= bytes left."""
@@ -433,9 +543,11 @@ def validated_by_unpack(fn, st):
         if isinstance(v, ast.BinOp) and isinstance(v.op, (ast.Div, ast.FloorDiv)) and isinstance(v.left, ast.Name) and v.left.id == N and isinstance(v.right, ast.Constant) and v.right.value == 4:
             M = t.id
     unpacked = False
+    temps = once_assigned(fn)
     for c in ast.walk(fn):
         if isinstance(c, ast.Call) and norm(c.func) in ("struct.unpack", "unpack") and c.lineno < st.lineno and len(c.args) == 2 and sliced and M:
             fmt, data = c.args
+            fmt = through_temporaries(fmt, temps)  # the format may have been given a name first
             if isinstance(data, ast.Name) and data.id == sliced and isinstance(fmt, ast.BinOp) and isinstance(fmt.op, ast.Mod) and isinstance(fmt.left, ast.Constant) \
                     and fmt.left.value in ("<%dL", "<%dI", "<%dl", "<%di") and isinstance(fmt.right, ast.Name) and fmt.right.id == M:
                 unpacked = True
@@ -493,58 +605,25 @@ def run(rep, tier):
     for q in ("xdis.load.load_module", "xdis.load.load_module_from_file_object"):
         m, fn = repo.function(q)
         rep.analysed(q)
-        for node in ast.walk(fn):
-            if enclosing_function(node) is not fn:
-                continue
-            if isinstance(node, ast.Raise):
-                n_sites += 1
-                ok = node.exc is None or raises_importerror(node)
-                if node.exc is None:
-                    ok = False
-                rep.ob("R1", q, "raise:%s" % norm(node.exc)[:40] if node.exc else "raise:bare", ok, expected="raise ImportError(...)", derived=norm(node)[:80],
-                       where=repo.where(m, node), msg="an explicit raise in the loader is not ImportError")
-                continue
-            if isinstance(node, ast.Call):
-                text = ast.unparse(node.func)
-                what = "call:%s" % text
-            elif isinstance(node, ast.Subscript) and isinstance(node.ctx, ast.Load) and not isinstance(node.slice, ast.Slice):
-                text = ast.unparse(node)
-                what = "lookup:%s" % text
-                # constant index into a freshly unpacked tuple etc. is fine only when protected; treated like any operation
-            else:
-                continue
+        for what, ok, exp, derived, node, msg in classify_sites(repo, m, fn, q, 0):
             n_sites += 1
-            prot = protection(node, fn)
-            if prot == "protected":
-                rep.ob("R1", q, what, True, derived="inside the catch-all")
-                continue
-            if isinstance(node, ast.Call) and text in TOTAL:
-                if text == "magic_int2tuple" and not in_handler_for(node, fn, ("KeyError",)):
-                    rep.ob("R1", q, what, False, expected="under `except KeyError`", derived="unguarded", where=repo.where(m, node),
-                           msg="magic_int2tuple raises KeyError for an unknown magic; outside the catch-all it must be under except KeyError")
-                else:
-                    rep.ob("R1", q, what, True, derived="total: " + TOTAL[text])
-                continue
-            if isinstance(node, ast.Subscript) and validated_lookup(repo, m, fn, node):
-                rep.ob("R1", q, what, True, derived="total: the same lookup already succeeded inside a dominating, KeyError-guarded call")
-                continue
-            if isinstance(node, ast.Call) and isinstance(node.func, ast.Attribute) and isinstance(node.func.value, ast.Constant):
-                rep.ob("R1", q, what, True, derived="method of a literal")
-                continue
-            rep.ob("R1", q, what, False, expected="inside the try/except Exception -> ImportError, or a listed total operation", derived="outside the catch-all",
-                   where=repo.where(m, node),
-                   msg="%s can raise an exception other than ImportError for crafted file content (it runs outside the catch-all)" % text)
+            rep.ob("R1", q, what, ok, expected=exp, derived=derived, where=repo.where(m, node) if not ok else None, msg=msg)
     rep.floor("raising operations classified in the loader", n_sites, 40)
     # the >= 50 byte guard that makes magic2int total
     m, fn = repo.function("xdis.load.load_module")
     guard = False
+    temps = once_assigned(fn)
     for node in ast.walk(fn):
-        if isinstance(node, ast.If):
-            t = ast.unparse(node.test)
-            if "getsize" in t and "<" in t and any(isinstance(s, ast.Raise) and raises_importerror(s) for s in node.body):
-                for c in ast.walk(node.test):
-                    if isinstance(c, ast.Constant) and isinstance(c.value, int) and c.value >= 8:
-                        guard = True
+        if isinstance(node, ast.If) and isinstance(node.test, ast.Compare) and len(node.test.ops) == 1 and any(isinstance(s, ast.Raise) and raises_importerror(s) for s in node.body):
+            l, op, r = through_temporaries(node.test.left, temps), node.test.ops[0], through_temporaries(node.test.comparators[0], temps)
+            if isinstance(op, (ast.Gt, ast.GtE)):
+                l, r = r, l
+            elif not isinstance(op, (ast.Lt, ast.LtE)):
+                continue
+            size_side = any(isinstance(c, ast.Call) and ast.unparse(c.func).endswith("getsize") for c in ast.walk(l))
+            bound = r.value if isinstance(r, ast.Constant) and isinstance(r.value, int) else None
+            if size_side and bound is not None and bound + (1 if isinstance(op, (ast.LtE, ast.GtE)) else 0) >= 8:
+                guard = True
     rep.ob("R1", "xdis.load.load_module", "short-file-guard", guard, expected="files shorter than the header are refused with ImportError before parsing", derived=guard)
     # ---------------------------------------------------------------- R2
     seen = cg.reachable(["xdis.load.load_module"])
